@@ -306,68 +306,81 @@ func runC16(c *Ctx) {
 		if lkp == nil {
 			probs = append(probs, "no comma-ok lookup of the sender in lastRequests")
 		}
-		nReq, nUpd := 0, 0
-		checkDecision := func(b *ssa.BasicBlock) {
-			nReq++
-			okEdge := false
-			for _, iff := range ifsIn(lim) {
-				if lkp != nil {
-					if _, absent, hit := succWhen(iff, ex(lkp)+"#1"); hit && edgeMustPass(lim, edge{iff.Block(), absent}, b) {
-						// not additionally on the ">= period" edge
-						onPeriod := false
-						for _, i2 := range ifsIn(lim) {
-							if tb, _, _, h2 := succWhenFunc(i2, func(cs string) bool {
-								return strings.Contains(cs, "(time.Time).Sub(") && strings.HasSuffix(cs, " >= 30000000000)")
-							}); h2 && edgeMustPass(lim, edge{i2.Block(), tb}, b) {
-								onPeriod = true
-							}
-						}
-						if !onPeriod {
-							okEdge = true
-						}
-					}
-				}
-				if tb, _, _, hit := succWhenFunc(iff, func(cs string) bool {
-					return strings.Contains(cs, "(time.Time).Sub(") && strings.HasSuffix(cs, " >= 30000000000)")
-				}); hit && edgeMustPass(lim, edge{iff.Block(), tb}, b) {
-					okEdge = true
-				}
-			}
-			if !okEdge {
-				probs = append(probs, "a request is triggered on a path that is neither `sender unknown` nor `last request ≥ 30 s ago`")
-			}
-			upd := false
-			for _, in2 := range b.Instrs {
-				if mu, ok := in2.(*ssa.MapUpdate); ok && strings.HasSuffix(ex(mu.Map), ".lastRequests") {
-					upd = true
-				}
-			}
-			if !upd {
-				probs = append(probs, "a request is triggered without recording its time")
-			}
-		}
-		for _, in := range allInstrs(lim) {
+		// decision / table-update instructions and the two kinds of "due" edges
+		isDecision := func(in ssa.Instruction) bool {
 			switch x := in.(type) {
 			case *ssa.Store:
 				// decision = true stored into a captured flag or into the (defer-spilled) boolean result
 				_, isAlloc := x.Addr.(*ssa.Alloc)
 				_, isFree := x.Addr.(*ssa.FreeVar)
-				if (isAlloc || isFree) && ex(x.Val) == "true" {
-					checkDecision(x.Block())
-				}
+				return (isAlloc || isFree) && ex(x.Val) == "true"
 			case *ssa.Return:
-				if len(x.Results) == 1 && ex(x.Results[0]) == "true" {
-					checkDecision(x.Block())
-				}
-			case *ssa.MapUpdate:
-				if strings.HasSuffix(ex(x.Map), ".lastRequests") {
-					nUpd++
+				return len(x.Results) == 1 && ex(x.Results[0]) == "true"
+			}
+			return false
+		}
+		isUpdate := func(in ssa.Instruction) bool {
+			mu, ok := in.(*ssa.MapUpdate)
+			return ok && strings.HasSuffix(ex(mu.Map), ".lastRequests")
+		}
+		absent, due := map[edge]bool{}, map[edge]bool{}
+		for _, iff := range ifsIn(lim) {
+			if lkp != nil {
+				if _, ab, hit := succWhen(iff, ex(lkp)+"#1"); hit {
+					absent[edge{iff.Block(), ab}] = true
 				}
 			}
+			if tb, _, _, hit := succWhenFunc(iff, func(cs string) bool {
+				return strings.Contains(cs, "(time.Time).Sub(") && strings.Contains(cs, ".lastRequests[") && strings.HasSuffix(cs, " >= 30000000000)")
+			}); hit {
+				due[edge{iff.Block(), tb}] = true
+			}
 		}
-		if nReq != 2 || nUpd != 2 {
-			probs = append(probs, fmt.Sprintf("%d request decisions, %d table updates (expected 2 and 2)", nReq, nUpd))
+		if len(absent) == 0 {
+			probs = append(probs, "no branch on `sender unknown` (comma-ok result of the lastRequests lookup)")
 		}
+		if len(due) == 0 {
+			probs = append(probs, "no branch on `now.Sub(lastRequests[sender]) >= 30 s`")
+		}
+		nPaths := 0
+		seenProb := map[string]bool{}
+		okEnum := enumPaths(lim.Blocks[0], nil, 2000, func(path []*ssa.BasicBlock) {
+			if isPanicBlock(path[len(path)-1]) {
+				return
+			}
+			nPaths++
+			viaAbsent, viaDue := false, false
+			for i := 0; i+1 < len(path); i++ {
+				e := edge{path[i], path[i+1]}
+				viaAbsent = viaAbsent || absent[e]
+				viaDue = viaDue || due[e]
+			}
+			dec, upd := 0, 0
+			for _, in := range pathInstrs(path) {
+				if isDecision(in) {
+					dec++
+				}
+				if isUpdate(in) {
+					upd++
+				}
+			}
+			switch {
+			case dec > 0 && !viaAbsent && !viaDue:
+				seenProb["a request is triggered on a path that is neither `sender unknown` nor `last request ≥ 30 s ago`"] = true
+			case dec == 0 && (viaAbsent || viaDue):
+				seenProb["no request is triggered although the sender is unknown / its last request is ≥ 30 s old"] = true
+			}
+			if dec > 0 && upd == 0 {
+				seenProb["a request is triggered without recording its time"] = true
+			}
+			if dec == 0 && upd > 0 {
+				seenProb["the time of the last request is refreshed without a request being made (the sender is never asked again)"] = true
+			}
+		})
+		if !okEnum || nPaths == 0 {
+			probs = append(probs, "rate-limit section has too many paths to enumerate")
+		}
+		probs = append(probs, keysOf(seenProb)...)
 		r.Check(len(probs) == 0, "R16.3", "onEventFrame rate limit", c.Pos(lim.Pos()), "request iff unknown sender or ≥ 30 s since the last request; table updated on exactly those paths", strings.Join(probs, "; "))
 		if lim.Signature.Results().Len() == 1 {
 			decision[ex(limCall)] = true
@@ -415,6 +428,30 @@ func runC16(c *Ctx) {
 			}
 		}
 	}
+	streamSrc := "local:slicelit[:]["
+	if streamBuf == nil {
+		// the list hoisted into a package-level array / slice that only the package initialiser writes
+		for _, in := range allInstrs(oef) {
+			var base ssa.Value
+			switch x := in.(type) {
+			case *ssa.IndexAddr:
+				base = x.X
+			case *ssa.Index:
+				base = x.X
+			}
+			if u, ok := base.(*ssa.UnOp); ok && u.Op == token.MUL {
+				base = u.X
+			}
+			g, ok := base.(*ssa.Global)
+			if !ok || g.Pkg == nil || token.IsExported(g.Name()) {
+				continue
+			}
+			if vals, ok := globalConstElems(g); ok {
+				streams = vals
+				streamSrc = shortQual(g.Pkg.Pkg) + "." + g.Name() + "["
+			}
+		}
+	}
 	r.Check(strings.Join(streams, ",") == "1,2,3,6,10,11,12", "R16.4", "onEventFrame stream list", c.Pos(oef.Pos()), "[1 2 3 6 10 11 12]", fmt.Sprintf("requested streams are %v, the standard set is [1 2 3 6 10 11 12]", streams))
 	rvals, robjs := setUintTable(oef)
 	rwant := map[string]string{"TargetSystem": "uint64((gomavlib.EventFrame).SystemID(arg0))", "TargetComponent": "uint64((gomavlib.EventFrame).ComponentID(arg0))",
@@ -426,7 +463,7 @@ func runC16(c *Ctx) {
 			probs = append(probs, fmt.Sprintf("%s ← %s (expected %s)", n, orStr(rvals[n], "<never set>"), w))
 		}
 	}
-	if v := rvals["ReqStreamId"]; !strings.HasPrefix(v, "uint64(local:slicelit[:][") || streamBuf == nil {
+	if v := rvals["ReqStreamId"]; !(strings.HasPrefix(v, "uint64("+streamSrc) || strings.HasPrefix(v, streamSrc)) || len(streams) == 0 {
 		probs = append(probs, "ReqStreamId ← "+orStr(v, "<never set>")+" (expected the current element of the stream list)")
 	}
 	for n := range rvals {
@@ -476,4 +513,104 @@ func bcond(fn *ssa.Function, b *ssa.BasicBlock) string {
 		}
 	}
 	return strings.Join(parts, " && ")
+}
+
+// globalConstElems: the constant elements of a private package-level array or slice that is written only by the
+// package initialiser (element by element from constants) and whose address is not handed out.
+func globalConstElems(g *ssa.Global) ([]string, bool) {
+	byIdx := map[int64]string{}
+	ok := true
+	var lit *ssa.Alloc
+	elemStores := func(base ssa.Value, refs *[]ssa.Instruction) {
+		if refs == nil {
+			return
+		}
+		for _, rf := range *refs {
+			ia, isIA := rf.(*ssa.IndexAddr)
+			if !isIA || ia.X != base || ia.Referrers() == nil {
+				continue
+			}
+			for _, rr := range *ia.Referrers() {
+				if st, isSt := rr.(*ssa.Store); isSt && st.Addr == ssa.Value(ia) {
+					k, isK := constInt(ia.Index)
+					if _, isC := constInt(st.Val); !isK || !isC || st.Parent().Name() != "init" {
+						ok = false
+						continue
+					}
+					byIdx[k] = ex(st.Val)
+				}
+			}
+		}
+	}
+	fns := append([]*ssa.Function{}, allFnsGlobal...)
+	if ini := g.Pkg.Func("init"); ini != nil {
+		fns = append(fns, ini) // the synthetic package initialiser is not part of the indexed source functions
+	}
+	for _, fn := range fns {
+		if fn.Pkg != g.Pkg {
+			continue
+		}
+		for _, in := range allInstrs(fn) {
+			for _, op := range in.Operands(nil) {
+				if *op != ssa.Value(g) {
+					continue
+				}
+				switch x := in.(type) {
+				case *ssa.UnOp:
+					// load (slice header / whole array): reads only
+				case *ssa.IndexAddr:
+					if x.Referrers() != nil {
+						for _, rr := range *x.Referrers() {
+							switch y := rr.(type) {
+							case *ssa.Store:
+								if y.Addr != ssa.Value(x) || fn.Name() != "init" {
+									ok = false
+								} else if k, isK := constInt(x.Index); isK {
+									if _, isC := constInt(y.Val); isC {
+										byIdx[k] = ex(y.Val)
+									} else {
+										ok = false
+									}
+								} else {
+									ok = false
+								}
+							case *ssa.UnOp, *ssa.DebugRef:
+							default:
+								ok = false
+							}
+						}
+					}
+				case *ssa.Store:
+					if x.Addr != ssa.Value(g) || fn.Name() != "init" {
+						ok = false
+						continue
+					}
+					// slice global: g ← slicelit[:]
+					if sl, isSl := x.Val.(*ssa.Slice); isSl {
+						if a, isA := sl.X.(*ssa.Alloc); isA && lit == nil {
+							lit = a
+							elemStores(a, a.Referrers())
+							continue
+						}
+					}
+					ok = false
+				case *ssa.Slice, *ssa.Range, *ssa.DebugRef:
+				default:
+					ok = false
+				}
+			}
+		}
+	}
+	if !ok || len(byIdx) == 0 {
+		return nil, false
+	}
+	var out []string
+	for i := int64(0); i < int64(len(byIdx)); i++ {
+		v, has := byIdx[i]
+		if !has {
+			return nil, false
+		}
+		out = append(out, v)
+	}
+	return out, true
 }
